@@ -31,6 +31,7 @@ import RosuModel.Model.PipelineManiaConvertWire
 import RosuModel.Model.SkillWire
 import RosuModel.Model.TaikoPreWire
 import RosuModel.Model.PipelineWire
+import RosuModel.Model.PipelineBytesWire
 import RosuModel.Model.PipelineManiaModsWire
 import RosuModel.Model.CurveWire
 import RosuModel.Model.PipelineCurveWire
@@ -91,6 +92,8 @@ def handle (line : String) : String :=
   | ["CRB", x] => ClockRate.handleCRB x
   | "PP" :: args => PerfCalc.handlePP args
   | ["MSKILL", rate, cols, take, objs] => SkillWire.handleMSKILL rate cols take objs
+  | "PIPE" :: "osub" :: args => PipelineBytes.Wire.handlePIPEOB args
+  | "PIPE" :: "catchb" :: args => PipelineBytes.Wire.handlePIPECB args
   | ["PIPE", "maniax", bytes, flags, rate, take] => PipelineManiaMods.handlePIPEx bytes flags rate take
   | ["PIPE", "taiko", bytes, mods, rate, take, sum0, hw, "G"] => PipelineWire.handlePIPEtaikoG bytes mods rate take sum0 hw
   | ["PIPE", "taiko", bytes, mods, rate, take, sum0, hw] => PipelineWire.handlePIPEtaiko bytes mods rate take sum0 hw
